@@ -117,7 +117,9 @@ CLAIMED = {
               "the requested and base resolutions, multires recognition, ValidCSR per level; the CLI resolution-spec spellings "
               "(N, B, 4DN, <k>N, <k>B, lists) are expanded by the specification and compared with the levels written; output paths "
               "that already hold an earlier multires file, and bases that are not coarsenings of one another (own data and value "
-              "dtype, every level derivable from exactly one base) are included."),
+              "dtype, every level derivable from exactly one base) are included; every base cooler carries a bin column and "
+              "metadata of its own, so that a base level must be a COPY (TLC invariant BasesAreCopiedNotRederived; the pinned "
+              "predecessor relation of defect F30 is refuted); sum / max / min aggregates through the API and --field."),
         design_ref="DESIGN.md section 6 C09, section 4.9", note="Trusted: TLC, structural projection. Bases are fixed-width coolers.",
         technique="TLA+ model checking (TLC) of the predecessor search + TLC trace validation of real multires files", category="model_checking"),
     "C17": dict(
@@ -155,7 +157,8 @@ CLAIMED = {
               "independence, plus seeded random histories of 2-12 operations) are executed on two real files; after EVERY operation "
               "both files are projected for 13 paths (content through the API, recognition, listing) and TLC applies the model's "
               "operations step by step and compares (StoreTrace.tla). Spec -> code: behaviours of 6 (thorough: 8) operations generated "
-              "by TLC's simulator from the same model (MC_StoreSim) are replayed into the real files in the same way."),
+              "by TLC's simulator from the same model (MC_StoreSim) are replayed into the real files in the same way. An attribute "
+              "layer (Store!Overlay) judges cp / create(a) / create(w) onto the ROOT of a file that carries attributes of its own."),
         design_ref="DESIGN.md section 6 C15, section 4.2",
         note=("Trusted: TLC, h5py/API projection. Out of the modelled domain (never generated; a history is not judged past such a "
               "step): link loops, root as a link source, cross-file copy onto a non-empty root, destinations behind soft/external "
@@ -175,10 +178,13 @@ CLAIMED = {
               "writers, for six destination set-ups and random histories; TLC steps the model along the recorded points and "
               "compares the file view at each (stateAsModel) and evaluates the property predicates on the observed files; merge, "
               "coarsen and unordered creation are run as producers into multi-collection files with injected failures. Spec -> code: "
-              "behaviours generated by TLC's simulator from the writer model (MC_CreateSim) are replayed into create_cooler."),
-        design_ref="DESIGN.md section 6 C13, section 4.3",
-        note=("Trusted: TLC, h5py projection. Failures are Python exceptions at step boundaries (each step opens/closes the file), not "
-              "HDF5-level torn writes. A failed re-creation over a previously recognised collection is outside the property's domain."),
+              "behaviours generated by TLC's simulator from the writer model (MC_CreateSim) are replayed into create_cooler. "
+              "Crash points are also PROCESS DEATHS: the call runs in a forked child that dies (os._exit) right before every file "
+              "open of the writer (about 500 deaths in the quick tier, each also followed by a re-creation over the wreck); the "
+              "file left behind must equal the model after some prefix of the steps (killedStateIsAPrefixOfTheSteps)."),
+        design_ref="DESIGN.md section 6 C13, section 4.3, section 5.2d'",
+        note=("Trusted: TLC, h5py projection. Failures are Python exceptions at step boundaries and process deaths at the points where "
+              "the file is closed (each step opens/closes the file), not HDF5-level torn writes or deaths while HDF5 holds the file open. A failed re-creation over a previously recognised collection is outside the property's domain."),
         technique="TLA+ model checking (TLC) of the stepwise writer with crash actions + TLC validation of recorded file states",
         category="model_checking"),
     "C06": dict(
@@ -324,7 +330,10 @@ def main():
                   "Every driver varies, by independent per-case feature choices, where the collection lives (file root / nested group next "
                   "to a decoy collection with other content, bin table and names), what the path held before, the row labels and dtypes of "
                   "the frames handed in, value types, and API vs command line (DESIGN.md section 5.2e). Open known findings: F3 (C05), "
-                  "F19 (C10), F29 (C03) - classified by TLC clause names, see known_findings.json."),
+                  "F19 (C10), F29 (C03) - classified by TLC clause names, see known_findings.json. Pinned / deliberately broken instances of "
+                  "the specification are run and must be refuted by TLC (Run.expect_refuted). Beyond the listed properties: ./check X01 "
+                  "(Session.tla: in-place mutation of a collection) and ./check X02 (Zoom.tla: construction of multi-resolution files "
+                  "killed at every step), evidence under evidence_extra/."),
         "not_applicable": [{"property_id": p, "reason": NA.get(p, REASON_PENDING)} for p in ALL if p not in CLAIMED],
     }
     with open(os.path.join(ROOT, "MANIFEST.json"), "w") as f:
